@@ -14,10 +14,13 @@ contract("proto:rule_call", trusted=True,
     ensures={
         "no_match_restores": "implies(result is None, view == old(view))",
         "match_consumes_prefix": "implies(result is not None, old(view) == consumed(result) + view and len(consumed(result)) > 0)",
+        "reader_lines_kept": "implies(old(len(reader.source_lines) > 0 and 0 <= reader.linecount and reader.linecount + len(reader.filo_line) == len(reader.source_lines)), len(reader.source_lines) > 0 and 0 <= reader.linecount and reader.linecount + len(reader.filo_line) == len(reader.source_lines))",
         "result_is_new_node": "implies(result is not None, not was_allocated(result))",
+        "lines_read": "implies(result is not None, len(reader.source_lines) > 0 and 0 <= reader.linecount and reader.linecount + len(reader.filo_line) == len(reader.source_lines))",
     },
-    # any exception may come out of a rule; the scope stack and the table registry are as before the call
-    raises={"*": {}},
+    # any exception may come out of a rule; the scope stack and the table registry are as before the call;
+    # a rule that reports "no match" by raising NoMatchError has put back what it took
+    raises={"NoMatchError": {"restores": "view == old(view)", "reader_lines_kept": "implies(old(len(reader.source_lines) > 0 and 0 <= reader.linecount and reader.linecount + len(reader.filo_line) == len(reader.source_lines)), len(reader.source_lines) > 0 and 0 <= reader.linecount and reader.linecount + len(reader.filo_line) == len(reader.source_lines))"}, "*!NoMatchError": {}},
     note="rule-call protocol G3 (scope_stack and SYMBOL_TABLES._symbol_tables are not in the modifies clause: unchanged on every exit)")
 
 contract("proto:restore_reader", trusted=True,
@@ -26,3 +29,45 @@ contract("proto:restore_reader", trusted=True,
     ensures={"put_back": "view == consumed(self) + old(view)"},
     raises=[],
     note="node.restore_reader(reader) puts the node's items back in front, in order")
+
+# class fact (uninterpreted here, checked on the real classes by checks/enum_block_table.py):
+# no instance a rule call of this class can return is a scoping region
+spec("never_scoping", "c:cls", "bool", None)
+# class fact: every instance a rule call of this class returns has get_start_label (labelled DO statements)
+spec("labelled_do_class", "c:cls", "bool", None)
+
+# concatenation of the items consumed by a list of nodes (right recursion: one unfolding per append)
+spec("cons", "xs:list[ref]", "list[ref]",
+     "[] if len(xs) == 0 else cons(xs[:len(xs) - 1]) + consumed(xs[len(xs) - 1])", rec=True)
+
+contract("proto:stmt_call", trusted=True,
+    types=dict(cls="cls", reader="FortranReaderBase"), returns="ref:Base?",
+    modifies=["view", "*.fifo_item", "*.linecount", "*.filo_line", "*.source_lines", "*.isclosed"],
+    ensures={
+        "no_match_restores": "implies(result is None, view == old(view))",
+        "match_consumes_prefix": "implies(result is not None, old(view) == consumed(result) + view and len(consumed(result)) > 0)",
+        "reader_lines_kept": "implies(old(len(reader.source_lines) > 0 and 0 <= reader.linecount and reader.linecount + len(reader.filo_line) == len(reader.source_lines)), len(reader.source_lines) > 0 and 0 <= reader.linecount and reader.linecount + len(reader.filo_line) == len(reader.source_lines))",
+        "result_is_new_node": "implies(result is not None, not was_allocated(result))",
+        "lines_read": "implies(result is not None, len(reader.source_lines) > 0 and 0 <= reader.linecount and reader.linecount + len(reader.filo_line) == len(reader.source_lines))",
+        "non_scoping_class": "implies(result is not None and never_scoping(cls), not typeof_is(result, 'ScopingRegionMixin'))",
+        "labelled_do_instances": "implies(result is not None and labelled_do_class(cls), has_attr(result, 'get_start_label'))",
+    },
+    raises={"NoMatchError": {"restores": "view == old(view)", "reader_lines_kept": "implies(old(len(reader.source_lines) > 0 and 0 <= reader.linecount and reader.linecount + len(reader.filo_line) == len(reader.source_lines)), len(reader.source_lines) > 0 and 0 <= reader.linecount and reader.linecount + len(reader.filo_line) == len(reader.source_lines))"}, "*!NoMatchError": {}},
+    note="statement-level rule call (Base.__new__ statement branch, proved as Base.__new__@stmt): never touches scopes or tables")
+
+contract("proto:add_comments", trusted=True,
+    types=dict(content="list[ref:Base]", reader="FortranReaderBase"), mutates=["content"],
+    modifies=["view", "*.fifo_item", "*.linecount", "*.filo_line", "*.source_lines", "*.isclosed"],
+    ensures={
+        "appends_only": "len(content) >= len(old(content)) and content[:len(old(content))] == old(content)",
+        "accounts_for_view": "cons(old(content)) + old(view) == cons(content) + view",
+        "reader_lines_kept": "implies(old(len(reader.source_lines) > 0 and 0 <= reader.linecount and reader.linecount + len(reader.filo_line) == len(reader.source_lines)), len(reader.source_lines) > 0 and 0 <= reader.linecount and reader.linecount + len(reader.filo_line) == len(reader.source_lines))",
+        "lines_read": "implies(len(content) > len(old(content)), len(reader.source_lines) > 0 and 0 <= reader.linecount and reader.linecount + len(reader.filo_line) == len(reader.source_lines))",
+    },
+    raises={"*": {}},
+    note="add_comments_includes_directives(content, reader): appends the nodes for the leading comment/include/directive items")
+
+contract("proto:get_scope_name", trusted=True, pure=True,
+    types=dict(self="ref:Base"), returns="str",
+    ensures={"non_empty": "result != ''"}, raises=[],
+    note="[A] a scoping statement has a non-empty name (get_name().string of a matched Name)")
